@@ -324,4 +324,74 @@ def frameTrace (s : FrameState) : List FrameOp → List FrameState
     | some (s', _) => frameTrace s' ops
     | none => []
 
+/-! ## the hooks: what `run_fun` / `run_method` do with the signal of the call they resolve (`vm/hooks.rs`) -/
+
+/-- `ExecutionSignal` -/
+inductive Signal where
+  | ok | okReturn | contextSwitch | exit | runtimeError | compileError
+  deriving DecidableEq, Repr
+
+def Signal.all : List Signal := [.ok, .okReturn, .contextSwitch, .exit, .runtimeError, .compileError]
+
+def Signal.name : Signal → String
+  | .ok => "Ok" | .okReturn => "OkReturn" | .contextSwitch => "ContextSwitch" | .exit => "Exit"
+  | .runtimeError => "RuntimeError" | .compileError => "CompileError"
+
+/-- what the `match self.resolve_call(..)` of `run_fun` / `run_method` makes of a signal -/
+inductive HookStep where
+  /-- `Ok`: a Laythe frame was pushed, the nested interpreter loop runs it -/
+  | execute
+  /-- `OkReturn`: a native ran on the spot, its value is popped -/
+  | value
+  /-- `RuntimeError`: handed to the native as `LyError::Err` (by `to_call_result`) -/
+  | runtimeError
+  /-- `Exit`: a native called directly was `exit` (or a native whose own callback exited): `ExecutionResult::Exit`,
+      handed to the calling native as `LyError::Exit` -/
+  | exit
+  /-- the `_` arm: `internal_error` — a host panic -/
+  | internalError
+  deriving DecidableEq, Repr
+
+/-- the match of `run_fun` and of `run_method` (the two are the same text) -/
+def hookStep : Signal → HookStep
+  | .ok => .execute
+  | .okReturn => .value
+  | .runtimeError => .runtimeError
+  | .exit => .exit
+  | .contextSwitch => .internalError
+  | .compileError => .internalError
+
+/-- the signals a call resolved by `resolve_call` can come back with: `call_closure` / `call` / `call_class` answer `Ok` or an
+    error, `call_native` answers `OkReturn`, the error of the native (`set_error`) or its exit (`set_exit`) -/
+def resolvedCallSignals : List Signal := [.ok, .okReturn, .exit, .runtimeError]
+
+/-! ## `Display` of a value (`laythe_core/src/utils.rs: fmt_nested`) -/
+
+/-- the heap as `Display` sees it: the objects whose `Display` writes other values (lists, tuples, maps, bound methods) by
+    address, each with the addresses of the objects of that sort directly inside it; every other value is a leaf.  Any
+    function is a graph: cycles and unbounded depth included. -/
+abbrev DisplayGraph := Nat → List Nat
+
+/-- the test of `fmt_nested`: `displaying.len() >= DISPLAY_MAX_DEPTH || displaying.contains(&address)` -/
+def displayRefuses (displaying : List Nat) (address : Nat) : Bool :=
+  displaying.length ≥ Limits.displayMaxDepth || displaying.contains address
+
+/-- the deepest nesting of `fmt_nested` activations (= length of `DISPLAYING`) reached while the object at `a` is written
+    with `displaying` in progress.  `fuel` bounds the recursion of the *model* only: `none` = fuel ran out
+    (`displayDepth_terminates`: it never does from `DISPLAY_MAX_DEPTH + 1`) -/
+def displayDepth (g : DisplayGraph) : Nat → List Nat → Nat → Option Nat
+  | 0, _, _ => none
+  | fuel + 1, displaying, a =>
+    if displayRefuses displaying a then some displaying.length
+    else (g a).foldl (fun acc c => match acc, displayDepth g fuel (a :: displaying) c with
+                                   | some m, some d => some (max m d)
+                                   | _, _ => none) (some (displaying.length + 1))
+
+/-- what `Display` writes for a graph of lists: `[` items `]`, `[...]` where `fmt_nested` refuses -/
+def displayText (g : DisplayGraph) : Nat → List Nat → Nat → String
+  | 0, _, _ => "<out of fuel>"
+  | fuel + 1, displaying, a =>
+    if displayRefuses displaying a then "[...]"
+    else "[" ++ ", ".intercalate ((g a).map (displayText g fuel (a :: displaying))) ++ "]"
+
 end LaytheVerif.Signature
